@@ -470,6 +470,38 @@ class Recorder:
         return False
 
 
+def canonical_calls(st, kind, n, h, a, calls, B, start_rows, fresh):
+    """hidden and auxiliary units are conditionally independent given the visible state, and the property does not say in which
+    order they are drawn: within each pass of a purification RBM put the hidden draw before the auxiliary draw (the order the model
+    replays), deciding by the number of elements, or -- when num_hidden == num_aux -- by which public conditional the recorded
+    probabilities are."""
+    if kind != "dens" or not calls:
+        return calls
+    body = calls[1:] if fresh else calls
+    if len(body) % 3 or (fresh and calls[0]["draw"].size != B * n):
+        return calls
+    out = calls[:1] if fresh else []
+    try:
+        v = (calls[0]["draw"] if fresh else np.asarray(start_rows)).reshape(B, n).astype(np.float64)
+        for s in range(len(body) // 3):
+            c0, c1, c2 = body[3 * s: 3 * s + 3]
+            swap = False
+            if c0["draw"].size == B * a and c1["draw"].size == B * h and c2["draw"].size == B * n:
+                if h != a:
+                    swap = True
+                else:
+                    ph = st.rbm_am.prob_h_given_v(tt(v.tolist(), n)).numpy().ravel()
+                    pa = st.rbm_am.prob_a_given_v(tt(v.tolist(), n)).numpy().ravel()
+                    swap = bool(np.allclose(c0["p"], pa, rtol=1e-12, atol=1e-15) and not np.allclose(c0["p"], ph, rtol=1e-12, atol=1e-15))
+            out += [c1, c0, c2] if swap else [c0, c1, c2]
+            if c2["draw"].size != B * n:
+                return calls
+            v = c2["draw"].reshape(B, n).astype(np.float64)
+    except Exception:
+        return calls
+    return out
+
+
 def step_sizes(kind, n, h, a):
     return [h, a, n] if kind == "dens" else [h, n]
 
@@ -532,12 +564,21 @@ def run_call(ctx, st, kind, n, h, a, am, k, start_rows, vector, overwrite, dtype
             res = st.sample(k, initial_state=init, overwrite=overwrite)
         else:
             res = st.rbm_am.gibbs_steps(k, init, overwrite=overwrite)
-    calls = rec.calls
+    calls = canonical_calls(st, kind, n, h, a, rec.calls, B, start_rows, fresh=init is None)
     sizes = step_sizes(kind, n, h, a)
     exp_shapes = ([[B, n]] if init is None else []) + [([m] if vector else [B, m]) for _ in range(k) for m in sizes]
     got_shapes = [c["shape"] for c in calls]
     res_np = res.detach().to(torch.double).numpy().copy()
     final = res_np.reshape(B, n)
+    if not calls and exp_shapes:
+        # the implementation made its draws without torch.bernoulli (e.g. thresholded uniforms): the scripted replay cannot be
+        # applied.  That is a broken correspondence, not a violation of the property: only the effect oracles below decide.
+        ctx.point(f"{tag}: draws are made through torch.bernoulli (scripted replay applicable)", "aux", 0, len(exp_shapes), case, exact=True,
+                  sig=f"{kind}/draws-not-through-bernoulli", theorem=TH["replay"])
+        okv = (tuple(res.shape) == ((n,) if vector else (B, n)) and res.dtype == torch.double and bool(np.all((final == 0) | (final == 1))))
+        ctx.oracle(f"{tag}: result is a 0/1 double array of the requested shape", okv, case, detail={"shape": list(res.shape), "dtype": str(res.dtype)},
+                   sig=f"{kind}/values-shape", theorem="C05_values_shape")
+        return res, calls, final
     # ---- oracles on the implementation
     okv = (tuple(res.shape) == ((n,) if vector else (B, n)) and res.dtype == torch.double and bool(np.all((final == 0) | (final == 1))))
     ctx.oracle(f"{tag}: result is a 0/1 double array of the requested shape", okv, case, detail={"shape": list(res.shape), "dtype": str(res.dtype)},
@@ -622,7 +663,8 @@ def replay_body(ctx, st, case, am, inp=None, ikey=None):
         same2 = res2.data_ptr() == ptr2
         ctx.oracle("call2: buffer semantics on the continued chain", bool(same2 == case["overwrite2"] and (case["overwrite2"] or torch.equal(res, before2))), case,
                    sig=f"{kind}/continue-buffer", theorem="C05_overwrite")
-        if ctx.driver is not None:
+        scripted = bool(calls or rec2.calls) or (k + k2 == 0 and start is not None)  # else: draws not made through torch.bernoulli (aux point above)
+        if ctx.driver is not None and scripted and (start is not None or calls):
             chain_start = start if start is not None else calls[0]["draw"].reshape(case["B"], n).tolist()
             c1 = calls[1:] if start is None else calls
             draws = [int(x) for c in c1 + rec2.calls for x in c["draw"]]
